@@ -63,7 +63,7 @@ with explains_l : list node -> list node -> list entry -> Prop :=
 
 Section Facts.
   Variable orc_int : str -> option Z.
-  Variable orc_float : str -> option (str * bool).
+  Variable orc_float : str -> option (str * bool * bool).
   Notation attempt_type := (attempt_type orc_int orc_float).
   Notation attempt := (attempt orc_int orc_float).
   Notation run_chain := (run_chain orc_int orc_float).
@@ -100,7 +100,8 @@ Section Facts.
     t = repair_number_type /\ exists s, v = VStr s /\ strip s <> [] /\
     ((use_int (strip s) = true /\ exists z, orc_int (strip s) = Some z /\ v' = VInt z /\
         e = mk_entry repair_rule_type s (Z_to_dec z) repair_tier_type)
-     \/ (use_int (strip s) = false /\ exists r, orc_float (strip s) = Some (r, true) /\ v' = VFloat r /\
+     \/ (use_int (strip s) = false /\ exists r zero, orc_float (strip s) = Some (r, true, zero) /\
+        (zero = true -> nonzero_mantissa (strip s) = false) /\ v' = VFloat r /\
         e = mk_entry repair_rule_type s r repair_tier_type)).
   Proof.
     unfold Repair.attempt_type. destruct (str_eqb t repair_number_type) eqn:Ht; cbn [negb]; [|discriminate].
@@ -110,8 +111,12 @@ Section Facts.
     destruct (use_int (c0 :: st)) eqn:Hu.
     - left. split; [reflexivity|]. destruct (orc_int (c0 :: st)) as [z|]; [|discriminate].
       inversion H; subst. exists z. auto.
-    - right. split; [reflexivity|]. destruct (orc_float (c0 :: st)) as [[r fin]|]; [|discriminate].
-      destruct fin; [|discriminate]. inversion H; subst. exists r. auto.
+    - right. split; [reflexivity|]. destruct (orc_float (c0 :: st)) as [[[r fin] zero]|]; [|discriminate].
+      rewrite repair_float_guards_pin in H. cbn [existsb] in H. unfold float_guard_holds in H. cbn [N.eqb Pos.eqb] in H.
+      destruct fin; cbn [negb orb] in H; [|discriminate].
+      destruct (zero && nonzero_mantissa (c0 :: st)) eqn:Hz; cbn [orb] in H; [discriminate|].
+      inversion H; subst. exists r, zero. repeat split; auto.
+      intros ->. exact Hz.
   Qed.
 
   (* every successful step: texts, a real change, result kind *)
@@ -122,7 +127,7 @@ Section Facts.
     unfold attempt. destruct (negb _); [discriminate|]. destruct c; [| |discriminate]; intro H.
     - apply attempt_enum_spec in H as (s & c & -> & -> & -> & Hn & Hi & _). cbn. repeat split; auto.
       intro E; inversion E; subst; contradiction.
-    - apply attempt_type_spec in H as (_ & s & -> & _ & [(_ & z & _ & -> & ->)|(_ & r & _ & -> & ->)]); cbn;
+    - apply attempt_type_spec in H as (_ & s & -> & _ & [(_ & z & _ & -> & ->)|(_ & r & zero & _ & _ & -> & ->)]); cbn;
         repeat split; auto; discriminate.
   Qed.
 
@@ -276,7 +281,8 @@ Section Facts.
         e_rule e = repair_rule_type /\ e_tier e = repair_tier_type /\ strip (e_before e) <> [] /\
         ((use_int (strip (e_before e)) = true /\ exists z, orc_int (strip (e_before e)) = Some z /\ e_after e = Z_to_dec z
             /\ read_dec (e_after e) = Some z)
-         \/ (use_int (strip (e_before e)) = false /\ orc_float (strip (e_before e)) = Some (e_after e, true)))).
+         \/ (use_int (strip (e_before e)) = false /\ exists zero, orc_float (strip (e_before e)) = Some (e_after e, true, zero)
+            /\ (zero = true -> nonzero_mantissa (strip (e_before e)) = false)))).
 
   Lemma run_chain_entries sch k cs0 : lookup k sch = Some (FChain cs0) ->
     forall cs, incl cs cs0 -> forall v, Forall (entry_ok sch) (snd (run_chain cs v)).
@@ -290,9 +296,10 @@ Section Facts.
     - apply attempt_enum_spec in Ha as (s & c & _ & _ & -> & Hn & Hin & Hlow & Hm). left.
       exists k, cs0, allowed. cbn. repeat split; auto. unfold enum_eval.
       apply str_in_In in Hin. rewrite Hin. reflexivity.
-    - apply attempt_type_spec in Ha as (-> & s & _ & Hne & [(Hu & z & Ho & _ & ->)|(Hu & rr & Ho & _ & ->)]); right;
+    - apply attempt_type_spec in Ha as (-> & s & _ & Hne & [(Hu & z & Ho & _ & ->)|(Hu & rr & zero & Ho & Hz & _ & ->)]); right;
         exists k, cs0; cbn; repeat split; auto.
       + left. split; [exact Hu|]. exists z. repeat split; auto. apply read_dec_Z_to_dec.
+      + right. split; [exact Hu|]. exists zero. split; assumption.
   Qed.
 
   Lemma repair_value_entries sch k fd v : lookup k sch = Some fd -> Forall (entry_ok sch) (snd (repair_value v (Some fd) true)).
@@ -329,7 +336,7 @@ Section Facts.
     unfold enum_eval. apply str_in_In in Hin. rewrite Hin. reflexivity.
   Qed.
   Theorem repair_satisfies_type v t v' e : attempt_type v t = Some (v', e) -> is_number v' = true.
-  Proof. intro H. apply attempt_type_spec in H as (_ & s & _ & _ & [(_ & z & _ & -> & _)|(_ & r & _ & -> & _)]); reflexivity. Qed.
+  Proof. intro H. apply attempt_type_spec in H as (_ & s & _ & _ & [(_ & z & _ & -> & _)|(_ & r & zero & _ & _ & -> & _)]); reflexivity. Qed.
 
   (* ---------- never fills, never touches zones / non-strings, ambiguous stays ---------- *)
   Theorem repair_never_fills sch k : repair_node sch (NAssign k VNull) = (NAssign k VNull, []).
@@ -451,7 +458,7 @@ Section Facts.
     - apply andb_true_iff in Hn as [Hc Hr].
       destruct (attempt c (VStr s)) as [[v' e]|] eqn:Ha.
       + unfold Repair.attempt in Ha. destruct (negb _); [discriminate|]. destruct c; try discriminate.
-        apply attempt_type_spec in Ha as (_ & s0 & _ & _ & [(_ & z & _ & -> & _)|(_ & rr & _ & -> & _)]);
+        apply attempt_type_spec in Ha as (_ & s0 & _ & _ & [(_ & z & _ & -> & _)|(_ & rr & zero & _ & _ & -> & _)]);
           rewrite run_chain_nonstr in H by reflexivity; inversion H; subst; left; reflexivity.
       + eapply IH; eauto.
   Qed.
@@ -478,7 +485,7 @@ Section Facts.
       + cbn [Repair.run_chain]. destruct (attempt (CType t) (VStr s)) as [[v' e]|] eqn:Ha.
         * pose proof Ha as Ha'. unfold Repair.attempt in Ha'. destruct (negb _); [discriminate|].
           assert (is_str v' = false) as Hv'.
-          { apply attempt_type_spec in Ha' as (_ & s0 & _ & _ & [(_ & z & _ & -> & _)|(_ & rr & _ & -> & _)]); reflexivity. }
+          { apply attempt_type_spec in Ha' as (_ & s0 & _ & _ & [(_ & z & _ & -> & _)|(_ & rr & zero & _ & _ & -> & _)]); reflexivity. }
           rewrite (run_chain_nonstr r v' Hv'). cbn [fst]. exact (run_chain_nonstr (CType t :: r) v' Hv').
         * destruct (run_chain r (VStr s)) as [w lg] eqn:Hr. cbn [fst].
           destruct (no_enum_run r Hs s w lg Hr) as [Hw|[-> ->]].
@@ -541,6 +548,71 @@ Section Facts.
     - apply nodes_ind'; intros; apply repair_node_idem; exact Hs.
     - unfold Repair.repair_nodes. cbn in E1, E2. rewrite E1, E2. reflexivity.
   Qed.
+
+  (* ---------- lossless number coercion (80b6126: underflow to zero is rejected) ---------- *)
+  Lemma rules_distinct : repair_rule_type <> repair_rule_enum.
+  Proof. vm_compute. discriminate. Qed.
+
+  (* what a successful text -> number step is: EITHER the integer int() read, logged with a text that re-reads to
+     exactly that integer, OR a float that the oracle reports finite and -- if the oracle reports it equal to zero --
+     whose literal has no digit 1..9 in its mantissa (so no non-zero literal becomes zero). No oracle hypothesis. *)
+  Theorem repair_lossless v t v' e : attempt_type v t = Some (v', e) ->
+    exists s, v = VStr s /\ e_before e = s /\
+      ((exists z, v' = VInt z /\ use_int (strip s) = true /\ orc_int (strip s) = Some z /\
+                  e_after e = Z_to_dec z /\ read_dec (e_after e) = Some z)
+       \/ (exists r zero, v' = VFloat r /\ use_int (strip s) = false /\ e_after e = r /\
+                          orc_float (strip s) = Some (r, true, zero) /\
+                          (zero = true -> nonzero_mantissa (strip s) = false))).
+  Proof.
+    intro H. apply attempt_type_spec in H as (_ & s & -> & _ & [(Hu & z & Ho & -> & ->)|(Hu & r & zero & Ho & Hz & -> & ->)]);
+      exists s; (split; [reflexivity|]); (split; [reflexivity|]).
+    - left. exists z. cbn [e_after]. repeat split; auto. apply read_dec_Z_to_dec.
+    - right. exists r, zero. cbn [e_after]. repeat split; auto.
+  Qed.
+
+  (* the same for every TYPE_COERCION entry of the log of a whole document *)
+  Theorem repair_lossless_log fx sch s d e : sch = Some s -> In e (snd (repair fx sch d)) -> e_rule e = repair_rule_type ->
+    strip (e_before e) <> [] /\
+    ((use_int (strip (e_before e)) = true /\ exists z, orc_int (strip (e_before e)) = Some z /\ e_after e = Z_to_dec z
+         /\ read_dec (e_after e) = Some z)
+     \/ (use_int (strip (e_before e)) = false /\ exists zero, orc_float (strip (e_before e)) = Some (e_after e, true, zero)
+         /\ (zero = true -> nonzero_mantissa (strip (e_before e)) = false))).
+  Proof.
+    intros Hs Hin Hr. pose proof (repair_changes_allowed fx sch s d Hs) as HA.
+    rewrite Forall_forall in HA. specialize (HA e Hin).
+    destruct HA as [(k & cs & a & _ & _ & Hrule & _)|(k & cs & _ & _ & _ & _ & Hne & Hc)].
+    - exfalso. apply rules_distinct. congruence.
+    - split; [exact Hne|exact Hc].
+  Qed.
+
+  (* an underflowing literal (float() gives zero, mantissa has a digit 1..9) is not coerced ... *)
+  Theorem repair_underflow_unrepaired s t r fin : use_int (strip s) = false ->
+    orc_float (strip s) = Some (r, fin, true) -> nonzero_mantissa (strip s) = true -> attempt_type (VStr s) t = None.
+  Proof.
+    intros Hu Ho Hm. destruct (attempt_type (VStr s) t) as [[v' e]|] eqn:Ha; [|reflexivity]. exfalso.
+    apply attempt_type_spec in Ha as (_ & s0 & E & _ & [(Hu' & _)|(_ & r' & zero & Ho' & Hz & _)]); inversion E; subst s0.
+    - congruence.
+    - rewrite Ho in Ho'. inversion Ho'; subst. specialize (Hz eq_refl). congruence.
+  Qed.
+
+  Lemma run_chain_all_none cs v : (forall c, In c cs -> attempt c v = None) -> run_chain cs v = (v, []).
+  Proof.
+    induction cs as [|c r IH]; intro H; cbn; [reflexivity|]. rewrite (H c) by (left; reflexivity).
+    apply IH. intros c' Hc'. apply H. right; exact Hc'.
+  Qed.
+
+  (* ... and a field whose chain has no ENUM keeps it, with an empty log (for every document position) *)
+  Theorem repair_underflow_node_unrepaired sch k cs s r fin : lookup k sch = Some (FChain cs) -> no_enum cs = true ->
+    use_int (strip s) = false -> orc_float (strip s) = Some (r, fin, true) -> nonzero_mantissa (strip s) = true ->
+    repair_node sch (NAssign k (VStr s)) = (NAssign k (VStr s), []).
+  Proof.
+    intros Hl Hn Hu Ho Hm. cbn [Repair.repair_node is_zone]. rewrite Hl. rewrite repair_value_cases. cbn [is_zone is_null negb orb].
+    assert (run_chain cs (VStr s) = (VStr s, [])) as E.
+    { apply run_chain_all_none. intros c Hc. unfold Repair.attempt. destruct (negb _); [reflexivity|].
+      unfold no_enum in Hn. rewrite forallb_forall in Hn. specialize (Hn c Hc). destruct c; [discriminate| |reflexivity].
+      eapply repair_underflow_unrepaired; eauto. }
+    destruct cs as [|c cs']; [reflexivity|]. rewrite E. reflexivity.
+  Qed.
 End Facts.
 
 (* ---- full statements that are FALSE of the faithful model, with witnesses ------------------------ *)
@@ -578,43 +650,175 @@ Proof.
   exists (fun _ => None), (fun _ => None), [69], [[65; 98]; [97]], [65]. split; vm_compute; [reflexivity|discriminate].
 Qed.
 
-(* "lossless": finite (entry_ok), the logged text re-reads to the same number (int: read_dec, proved; float: repr
-   round trip of CPython, checked by the harness on every case) AND a non-zero literal does not become zero.
-   The last clause is false: float("1e-400") = 0.0 is finite. *)
+(* ---- the mantissa test in closed form (tables of RepairGen.v eliminated): a digit 1..9 before the first e/E ---- *)
+Lemma digit_memb c : memb c [49; 50; 51; 52; 53; 54; 55; 56; 57] = (49 <=? c) && (c <=? 57).
+Proof.
+  destruct (N.leb_spec 49 c) as [H1|H1], (N.leb_spec c 57) as [H2|H2]; cbn [andb].
+  - assert (c = 49 \/ c = 50 \/ c = 51 \/ c = 52 \/ c = 53 \/ c = 54 \/ c = 55 \/ c = 56 \/ c = 57) as H by lia.
+    repeat (destruct H as [->|H]; [reflexivity|]). subst; reflexivity.
+  - apply not_true_iff_false. intro H. apply existsb_exists in H as (x & Hin & He). apply N.eqb_eq in He. subst x.
+    cbn in Hin. lia.
+  - apply not_true_iff_false. intro H. apply existsb_exists in H as (x & Hin & He). apply N.eqb_eq in He. subst x.
+    cbn in Hin. lia.
+  - lia.
+Qed.
+
+Lemma lower_chr_e c : (lower_chr c =? 101) = ((c =? 101) || (c =? 69)).
+Proof.
+  unfold lower_chr, is_upper.
+  destruct (N.leb_spec 65 c), (N.leb_spec c 90); cbn [andb];
+    destruct (N.eqb_spec c 101), (N.eqb_spec c 69); cbn [orb]; try lia;
+    try (apply N.eqb_eq; lia); try (apply N.eqb_neq; lia).
+Qed.
+
+Lemma lower_chr_digit c : ((49 <=? lower_chr c) && (lower_chr c <=? 57)) = ((49 <=? c) && (c <=? 57)).
+Proof.
+  unfold lower_chr, is_upper.
+  destruct (N.leb_spec 65 c), (N.leb_spec c 90); cbn [andb]; try reflexivity.
+  destruct (N.leb_spec 49 (c + 32)), (N.leb_spec (c + 32) 57), (N.leb_spec 49 c), (N.leb_spec c 57); cbn [andb]; try reflexivity; lia.
+Qed.
+
+Theorem nonzero_mantissa_spec st :
+  nonzero_mantissa st = existsb (fun c => (49 <=? c) && (c <=? 57)) (takeb (fun c => negb ((c =? 101) || (c =? 69))) st).
+Proof.
+  unfold nonzero_mantissa, mantissa. destruct repair_mantissa_pin as (-> & -> & ->). cbn [N.eqb Pos.eqb]. unfold lower.
+  induction st as [|c r IH]; [reflexivity|]. cbn [map takeb]. rewrite lower_chr_e.
+  destruct ((c =? 101) || (c =? 69)); cbn [negb]; [reflexivity|]. cbn [existsb]. rewrite IH, digit_memb, lower_chr_digit. reflexivity.
+Qed.
+
+(* ---- "lossless" at the level of the LOGGED TEXTS: a non-zero literal does not become a zero text -------------------- *)
+(* a text made of 0 . - only: what str() prints for 0, 0.0, -0.0 *)
 Definition zero_text (r : str) : bool := forallb (fun c => memb c [48; 46; 45]) r.
-Definition nonzero_mantissa (st : str) : bool :=
-  existsb (fun c => (49 <=? c) && (c <=? 57)) (takeb (fun c => negb ((c =? 101) || (c =? 69))) st).
+
+(* for an arbitrary oracle this is false only because an oracle may contradict ITSELF (repr "0.0" but flag x != 0);
+   see repair_lossless_inconsistent_oracle_refuted.  Under a self-consistent oracle it holds: repair_lossless_text. *)
 Definition repair_lossless_full : Prop :=
   forall oi of_ s d e, In e (snd (repair oi of_ true (Some s) d)) -> e_rule e = repair_rule_type ->
     zero_text (e_after e) = true -> nonzero_mantissa (strip (e_before e)) = false.
-Definition wit_underflow_text : str := [49; 101; 45; 52; 48; 48].     (* 1e-400 *)
-Definition wit_underflow_orc (s : str) : option (str * bool) :=
-  if str_eqb s wit_underflow_text then Some ([48; 46; 48], true) else None.     (* float("1e-400") = 0.0, finite *)
-Lemma repair_lossless_underflow_refuted :
+
+Section OracleSound.
+  Variable oi : str -> option Z.
+  Variable of_ : str -> option (str * bool * bool).
+  (* the two readings the float oracle gives of ONE number agree: a zero repr text is flagged == 0.
+     (NOT assumed: anything about which literals float() maps to zero.) *)
+  Hypothesis of_consistent : forall st r fin zero, of_ st = Some (r, fin, zero) -> zero_text r = true -> zero = true.
+
+  Theorem repair_lossless_text_float s d e : In e (snd (repair oi of_ true (Some s) d)) -> e_rule e = repair_rule_type ->
+    use_int (strip (e_before e)) = false ->
+    zero_text (e_after e) = true -> nonzero_mantissa (strip (e_before e)) = false.
+  Proof.
+    intros Hin Hr Hu Hz.
+    destruct (repair_lossless_log oi of_ true (Some s) s d e eq_refl Hin Hr) as (_ & [(Hu' & _)|(_ & zero & Ho & Hm)]).
+    - congruence.
+    - apply Hm. eapply of_consistent; eauto.
+  Qed.
+
+  (* int(): a text with an ASCII digit 1..9 before any e/E is not read as 0 (a fact of CPython int(), checked by the
+     extracted tbl_int_zero_ok on every oracle table of every run; the int branch of repair.py has no guard) *)
+  Hypothesis oi_zero : forall st z, oi st = Some z -> zero_text (Z_to_dec z) = true -> nonzero_mantissa st = false.
+
+  Theorem repair_lossless_text s d e : In e (snd (repair oi of_ true (Some s) d)) -> e_rule e = repair_rule_type ->
+    zero_text (e_after e) = true -> nonzero_mantissa (strip (e_before e)) = false.
+  Proof.
+    intros Hin Hr Hz.
+    destruct (repair_lossless_log oi of_ true (Some s) s d e eq_refl Hin Hr) as (_ & [(_ & z & Ho & Ea & _)|(_ & zero & Ho & Hm)]).
+    - rewrite Ea in Hz. eapply oi_zero; eauto.
+    - apply Hm. eapply of_consistent; eauto.
+  Qed.
+End OracleSound.
+
+(* the hypotheses as a computable check of an oracle TABLE (run by the extracted driver on the real tables) *)
+Definition tbl_float_consistent (t : orc_tbl) : bool :=
+  forallb (fun kr => match snd (snd kr) with Some (r, _, zero) => implb (zero_text r) zero | None => true end) t.
+Definition tbl_int_zero_ok (t : orc_tbl) : bool :=
+  forallb (fun kr => match fst (snd kr) with
+                     | Some z => implb (zero_text (Z_to_dec z)) (negb (nonzero_mantissa (fst kr)))
+                     | None => true end) t.
+
+Lemma tbl_find_In t s x : tbl_find t s = Some x -> In (s, x) t.
+Proof.
+  induction t as [|[k r] t IH]; cbn; [discriminate|]. destruct (str_eqb s k) eqn:E.
+  - apply str_eqb_eq in E. subst. intro H; inversion H; subst. left; reflexivity.
+  - intro H. right. apply IH; exact H.
+Qed.
+
+Lemma tbl_float_consistent_sound t : tbl_float_consistent t = true ->
+  forall st r fin zero, tbl_float t st = Some (r, fin, zero) -> zero_text r = true -> zero = true.
+Proof.
+  intros Hc st r fin zero Hf Hz. unfold tbl_float in Hf. destruct (tbl_find t st) as [[i f]|] eqn:E; [|discriminate].
+  apply tbl_find_In in E. unfold tbl_float_consistent in Hc. rewrite forallb_forall in Hc. specialize (Hc _ E).
+  cbn [fst snd] in Hc. rewrite Hf in Hc. rewrite Hz in Hc. destruct zero; [reflexivity|discriminate].
+Qed.
+
+Lemma tbl_int_zero_ok_sound t : tbl_int_zero_ok t = true ->
+  forall st z, tbl_int t st = Some z -> zero_text (Z_to_dec z) = true -> nonzero_mantissa st = false.
+Proof.
+  intros Hc st z Hi Hz. unfold tbl_int in Hi. destruct (tbl_find t st) as [[i f]|] eqn:E; [|discriminate].
+  apply tbl_find_In in E. unfold tbl_int_zero_ok in Hc. rewrite forallb_forall in Hc. specialize (Hc _ E).
+  cbn [fst snd] in Hc. rewrite Hi in Hc. rewrite Hz in Hc. cbn [implb] in Hc. destruct (nonzero_mantissa st); [discriminate|reflexivity].
+Qed.
+
+(* for the table oracle the driver runs: if the table passes the two computable checks, no TYPE_COERCION entry of any
+   document under any schema turns a literal with a non-zero mantissa into a zero text *)
+Theorem repair_tbl_lossless_text t : tbl_float_consistent t = true -> tbl_int_zero_ok t = true ->
+  forall s d e, In e (snd (repair_tbl t true (Some s) d)) -> e_rule e = repair_rule_type ->
+    zero_text (e_after e) = true -> nonzero_mantissa (strip (e_before e)) = false.
+Proof.
+  intros Hf Hi s d e. unfold repair_tbl. apply repair_lossless_text.
+  - apply tbl_float_consistent_sound; exact Hf.
+  - apply tbl_int_zero_ok_sound; exact Hi.
+Qed.
+
+(* ---- witnesses ---------------------------------------------------------------------------------------------- *)
+Definition wit_number_schema : schema := [([78], FChain [COther; CType repair_number_type])].
+Definition wit_underflow_text : str := [49; 101; 45; 52; 48; 48].                  (* 1e-400 *)
+Definition wit_underflow_neg_text : str := [45; 49; 101; 45; 52; 48; 48].          (* -1e-400 *)
+Definition wit_underflow_upper_text : str := [32; 50; 46; 48; 69; 45; 51; 50; 52].  (* " 2.0E-324" *)
+Definition wit_zero_exp_text : str := [48; 101; 53].                               (* 0e5 *)
+Definition wit_zero_neg_text : str := [45; 48; 46; 48; 101; 45; 57; 57; 57].       (* -0.0e-999 *)
+Definition txt_0_0 : str := [48; 46; 48].                                          (* 0.0 *)
+Definition txt_m0_0 : str := [45; 48; 46; 48].                                     (* -0.0 *)
+(* the real float(): all five read as +-0.0 (finite, == 0) *)
+Definition wit_tbl : orc_tbl :=
+  [(wit_underflow_text, (None, Some (txt_0_0, true, true)));
+   (wit_underflow_neg_text, (None, Some (txt_m0_0, true, true)));
+   ([50; 46; 48; 69; 45; 51; 50; 52], (None, Some (txt_0_0, true, true)));
+   (wit_zero_exp_text, (None, Some (txt_0_0, true, true)));
+   (wit_zero_neg_text, (None, Some (txt_m0_0, true, true)));
+   ([49; 46; 53], (None, Some ([49; 46; 53], true, false)));
+   ([52; 50], (Some 42%Z, Some ([52; 50; 46; 48], true, false)));
+   ([45; 48], (Some 0%Z, Some (txt_m0_0, true, true)))].
+
+(* REGRESSION (80b6126; before the fix the first three were coerced to 0.0 / -0.0 and logged as REPAIR): underflowing
+   literals are left unrepaired with an EMPTY log; zero literals in any notation are still coerced *)
+Example repair_underflow_regression :
+  repair_tbl wit_tbl true (Some wit_number_schema) [NAssign [78] (VStr wit_underflow_text)]
+    = ([NAssign [78] (VStr wit_underflow_text)], [])
+  /\ repair_tbl wit_tbl true (Some wit_number_schema) [NAssign [78] (VStr wit_underflow_neg_text)]
+    = ([NAssign [78] (VStr wit_underflow_neg_text)], [])
+  /\ repair_tbl wit_tbl true (Some wit_number_schema) [NBlock [66] None [NAssign [78] (VStr wit_underflow_upper_text)]]
+    = ([NBlock [66] None [NAssign [78] (VStr wit_underflow_upper_text)]], [])
+  /\ repair_tbl wit_tbl true (Some wit_number_schema) [NAssign [78] (VStr wit_zero_exp_text)]
+    = ([NAssign [78] (VFloat txt_0_0)], [mk_entry repair_rule_type wit_zero_exp_text txt_0_0 repair_tier_type])
+  /\ repair_tbl wit_tbl true (Some wit_number_schema) [NAssign [78] (VStr wit_zero_neg_text)]
+    = ([NAssign [78] (VFloat txt_m0_0)], [mk_entry repair_rule_type wit_zero_neg_text txt_m0_0 repair_tier_type]).
+Proof. vm_compute. repeat split; reflexivity. Qed.
+
+(* the hypotheses of repair_lossless_text are satisfiable by a non-trivial oracle (the table above) *)
+Example oracle_hypotheses_nonvacuous : tbl_float_consistent wit_tbl = true /\ tbl_int_zero_ok wit_tbl = true.
+Proof. vm_compute. split; reflexivity. Qed.
+
+(* an oracle that contradicts itself (repr "0.0", flag "!= 0") falsifies the unconditional text-level statement: the
+   hypothesis of_consistent is needed, and it is a statement about the oracle, not about repair.py *)
+Definition wit_inconsistent_orc (s : str) : option (str * bool * bool) :=
+  if str_eqb s wit_underflow_text then Some (txt_0_0, true, false) else None.
+Lemma repair_lossless_inconsistent_oracle_refuted :
   exists oi of_ s d e, In e (snd (repair oi of_ true (Some s) d)) /\ e_rule e = repair_rule_type /\
     zero_text (e_after e) = true /\ nonzero_mantissa (strip (e_before e)) = true.
 Proof.
-  exists (fun _ => None), wit_underflow_orc, [([78], FChain [COther; CType repair_number_type])],
-    [NAssign [78] (VStr wit_underflow_text)],
-    (mk_entry repair_rule_type wit_underflow_text [48; 46; 48] repair_tier_type).
+  exists (fun _ => None), wit_inconsistent_orc, wit_number_schema, [NAssign [78] (VStr wit_underflow_text)],
+    (mk_entry repair_rule_type wit_underflow_text txt_0_0 repair_tier_type).
   vm_compute. repeat split; auto.
-Qed.
-(* under an oracle that never maps a non-zero literal to zero the clause holds (the hypothesis is exactly the
-   negation of the finding class; it is about CPython float(), not about repair.py) *)
-Theorem repair_lossless_partial oi of_ :
-  (forall st r, of_ st = Some (r, true) -> zero_text r = true -> nonzero_mantissa st = false) ->
-  (forall st z, oi st = Some z -> zero_text (Z_to_dec z) = true -> nonzero_mantissa st = false) ->
-  forall s d e, In e (snd (repair oi of_ true (Some s) d)) -> e_rule e = repair_rule_type ->
-    repair_rule_type <> repair_rule_enum ->
-    zero_text (e_after e) = true -> nonzero_mantissa (strip (e_before e)) = false.
-Proof.
-  intros Hf Hi s d e Hin Hr Hne Hz.
-  pose proof (repair_changes_allowed oi of_ true (Some s) s d eq_refl) as HA.
-  rewrite Forall_forall in HA. specialize (HA e Hin).
-  destruct HA as [(k & cs & a & _ & _ & Hrule & _)|(k & cs & _ & _ & _ & _ & _ & [(_ & z & Ho & Ea & _)|(_ & Ho)])].
-  - congruence.
-  - rewrite Ea in Hz. eapply Hi; eauto.
-  - eapply Hf; eauto.
 Qed.
 Lemma repair_rules_distinct : repair_rule_type <> repair_rule_enum.
 Proof. vm_compute. discriminate. Qed.
